@@ -60,3 +60,6 @@ example : ∃ f g', Rng.float64 gA 1 = some (f, g') ∧ Finite f ∧ signBit f =
   | some p => exact ⟨p.1, p.2, rfl, float_in_unit 1 gA p.2 p.1 h⟩
 
 end Ysgo.C09
+
+#print axioms Ysgo.C09.float_in_unit
+#print axioms Ysgo.C09.random_in_unit
